@@ -5,6 +5,8 @@ import (
 	"crypto/rand"
 	"encoding/base64"
 	"fmt"
+	"github.com/cbeuw/Cloak/internal/server/usermanager"
+	"net"
 	"runtime"
 	"strings"
 	"sync"
@@ -243,6 +245,17 @@ func c08Inner(sc c08Scenario) (vk.Result, error) {
 		return time.Now()
 	}
 	sta := vState(&State{StaticPv: &pv, UsedRandom: map[[32]byte]int64{}, WorldState: common.WorldState{Rand: rand.Reader, Now: now}})
+	// what connection handling needs (op newViaServer): the captured packets' user is authorised, its proxy method served
+	sinkNet, sinkLn := &vk.Net{Auto: true}, vk.NewListener()
+	var cuid [16]byte
+	copy(cuid[:], c08CaptureUID)
+	sta.BypassUID = map[[16]byte]struct{}{cuid: {}}
+	sta.ProxyBook = map[string]net.Addr{c08CaptureMethod: &net.TCPAddr{IP: net.IPv4(10, 8, 8, 8), Port: 8388}}
+	sta.ProxyDialer = &vk.Dialer{Net: sinkNet, Ln: sinkLn}
+	sta.RedirDialer = &vk.Dialer{Net: sinkNet, Ln: sinkLn}
+	sta.RedirHost, sta.RedirPort = &net.IPAddr{IP: net.IPv4(10, 9, 9, 9)}, "443"
+	sta.Panel = vPanel(&usermanager.Voidmanager{})
+	defer sinkLn.Close()
 	go sta.UsedRandomCleaner()
 	t0 := time.Now()
 	defer func() {
@@ -426,6 +439,39 @@ func c08Inner(sc c08Scenario) (vk.Result, error) {
 				res.Labels = append(res.Labels, "presentation-during-cleanup")
 			default:
 			}
+		case "newViaServer":
+			// a fresh genuine packet arrives on a connection and is handled by the server's connection handler; the
+			// reply reaches the client (N=0), cannot be written because the connection was reset right after the
+			// first packet (N=1), or the client hangs up at once (N=2). In every case the server has accepted this
+			// handshake - it set up (or joined) a session for it - and later presentations are replays
+			first, tr, err := c08Capture(pub, op.WS, op.Sig, 0)
+			if err != nil {
+				return res, fmt.Errorf("harness: %v", err)
+			}
+			p := &c08Packet{first: first, transport: tr, created: time.Now(), ws: op.WS}
+			pkts = append(pkts, p)
+			hnet, hln := &vk.Net{Auto: true, Tap: true}, vk.NewListener()
+			if op.N == 1 {
+				hnet.OnLink = func(l *vk.Link) { l.BreakWrites(vk.BtoA) }
+			}
+			conn, _ := (&vk.Dialer{Net: hnet, Ln: hln}).Dial("tcp", "x")
+			sconn, _ := hln.Accept()
+			go dispatchConnection(sconn, sta)
+			conn.Write(first)
+			if op.N == 2 {
+				conn.Close()
+			}
+			synctest.Wait()
+			replied := len(conn.(*vk.End).Link().Wire(vk.BtoA)) > 0
+			if op.N == 0 && !replied {
+				return res, vk.Violatef("a genuine fresh handshake arriving on a connection was not answered (needed as the base of the replay history)")
+			}
+			conn.Close()
+			synctest.Wait()
+			p.accepted++
+			lastAccept[len(pkts)-1] = time.Now()
+			res.NonTrivial = true
+			res.Labels = append(res.Labels, []string{"first-presentation-on-a-connection:answered", "first-presentation-on-a-connection:reply-undeliverable", "first-presentation-on-a-connection:client-hung-up"}[op.N%3])
 		case "newDuringCleanup":
 			// a fresh genuine packet, not presented now: it will be presented for the first time while the next
 			// clean-up is running; later "again" ops replay it
@@ -494,9 +540,16 @@ func c08Gen(rt *rapid.T) c08Scenario {
 			{K: "new", Sig: "safari"}, {K: "newDuringCleanup", Sig: "firefox", WS: rapid.IntRange(0, 4).Draw(rt, "dws") == 0},
 			{K: "advance", Ms: int64(rapid.IntRange(101, 150).Draw(rt, "dadv")) * 1000}, {K: "again", I: 2}}
 	}
+	if rapid.IntRange(0, 5).Draw(rt, "viaserver") == 0 {
+		// a handshake handled by the connection handler (answered, or not answerable), replayed soon afterwards
+		sc.Ops = []c08Op{{K: "new", Sig: "firefox"}, {K: "newViaServer", Sig: rapid.SampledFrom([]string{"firefox", "safari", "chrome"}).Draw(rt, "vsig"), WS: rapid.IntRange(0, 3).Draw(rt, "vws") == 0, N: rapid.IntRange(0, 2).Draw(rt, "vfault")},
+			{K: "advance", Ms: int64(rapid.IntRange(1, 170).Draw(rt, "vadv")) * 1000}, {K: "again", I: 1}}
+	}
 	for i := 0; i < n; i++ {
 		k := rapid.IntRange(0, 99).Draw(rt, "kind")
 		switch {
+		case k < 3:
+			sc.Ops = append(sc.Ops, c08Op{K: "newViaServer", WS: rapid.IntRange(0, 4).Draw(rt, "ws") == 0, Sig: rapid.SampledFrom([]string{"firefox", "safari", "chrome"}).Draw(rt, "sig"), N: rapid.IntRange(0, 2).Draw(rt, "fault")})
 		case k < 12:
 			sc.Ops = append(sc.Ops, c08Op{K: "new", WS: rapid.IntRange(0, 4).Draw(rt, "ws") == 0, Sig: rapid.SampledFrom([]string{"firefox", "safari", "chrome"}).Draw(rt, "sig"),
 				Skew: rapid.SampledFrom([]int64{0, 0, 178000, -178000, 90000, -90000, 170000}).Draw(rt, "skew")})
